@@ -10,6 +10,7 @@ CONSTANTS
   MaxRecvs = @@RECVS@@
   Faults = @@FAULTS@@
   Oracle <- MCOracle
+  LateBytes = FALSE
   Report = FALSE
   Dev = {@@DEV@@}
 VIEW MCView
